@@ -1,6 +1,6 @@
 ---------------------------- MODULE MC_GraphSLAM ----------------------------
 (* Exhaustive bounded model of the system specification: every behaviour of           *)
-(* Construct / Query / SetFixed / OptCall over a small universe of vertices, edges,   *)
+(* Construct / Query / SetFixed / OptCall / Reload over a small universe of vertices, edges,   *)
 (* pose tokens and stop functions.  Checks the frame conditions as action properties  *)
 (* and the binding invariant on ALL reachable states (not only on sampled behaviours).*)
 EXTENDS GraphSLAM
@@ -13,6 +13,7 @@ MCNext ==
   \/ \E vs \in VertexLists : \E e \in EdgeChoices : UniqueIds(vs) /\ Construct(vs, <<e>>)
   \/ \E q \in {"calc_chi2", "edge_jacobians", "to_g2o"} : Query(q)
   \/ \E i \in 1..MaxV : \E b \in BOOLEAN : SetFixed(i, b)
+  \/ \E r \in BOOLEAN : \E np \in [DOMAIN verts -> Tokens] : Reload(r, np, [n \in DOMAIN edges |-> 0])
   \/ \E m \in 1..MaxIterMC : \E ff \in BOOLEAN : \E st \in [1..m -> BOOLEAN] : \E np \in [DOMAIN verts -> Tokens] : OptCall(m, ff, TRUE, st, np)
 MCSpec == Init /\ [][MCNext]_vars
 \* model mutant (vacuity guard): an optimizer that also updates fixed vertices must violate FixedFrozen
